@@ -47,7 +47,7 @@ ASSUMPTIONS = [
     "a scope constructed after its parent's completion already fired cannot delay that completion: only no-failure, once, stable and its own ordering are judged for it",
     "scopes constructed but never entered are not generated; relative order of sibling completions and the delay between last exit and callback (before quiescence) are unspecified",
 ]
-MINIMUMS = {"failed_enters": 300, "monitor:once": 20000, "monitor:after-subtree": 20000, "child_left_after_parent": 3000, "late_children": 300, "set:schedules": 4000, "async_callbacks": 2000, "spawns_attempted_while_the_scope_aborts": 24, "scopes_whose_resources_could_not_be_collected": 20}
+MINIMUMS = {"failed_enters": 300, "monitor:once": 20000, "monitor:after-subtree": 20000, "child_left_after_parent": 3000, "late_children": 300, "set:schedules": 4000, "async_callbacks": 2000, "spawns_attempted_while_the_scope_aborts": 24, "scopes_whose_resources_could_not_be_collected": 20, "programs_ending_right_after_their_outermost_scope": 50}
 JOBS = {"quick": 4, "thorough": 16}
 LEVEL_TEXT = (
     "All trees of up to 3 nodes x node kinds x placements are run under every linearisation of their gated enters/exits (DFS, capped), 4-5 node trees with mixed callback kinds "
@@ -479,7 +479,63 @@ def run_spawn_while_aborting(R: Recorder, case: dict[str, Any]) -> None:
                   detail=f"ctx.spawn from a task of P (while P was aborting) returned a task, yet P completed before the scope X run by that task was left; log={log} notes={notes}", case=case)
 
 
+def run_program_end(R: Recorder, case: dict[str, Any]) -> None:
+    """the usual program shape: `asyncio.run(main())` where leaving the outermost scope is the last thing main() does (nothing is awaited
+    afterwards): every completion callback - sync or async - of the scopes that were left has been invoked (exactly once) by the time
+    asyncio.run returns. Real event loop, real asyncio.run."""
+    from haiway import ctx
+
+    kinds, last = case["kinds"], case["last"]  # callback kind per scope (root, nested, spawned); what main() does last
+    calls: list[str] = []
+
+    def cb(name: str, kind: str) -> Any:
+        async def acb(metrics: Any) -> None:
+            calls.append(name)  # the callback was invoked; whatever it awaits after this point is its own business
+
+        def scb(metrics: Any) -> None:
+            calls.append(name)
+
+        class Obj:
+            async def __call__(self, metrics: Any) -> None:
+                calls.append(name)
+
+        return {"async": acb, "sync": scb, "async-object": Obj()}[kind]
+
+    async def job() -> None:
+        async with ctx.scope("spawned", completion=cb("spawned", kinds[2])):
+            await asyncio.sleep(0)
+
+    async def main() -> None:
+        async with ctx.scope("root", completion=cb("root", kinds[0])):
+            async with ctx.scope("nested", completion=cb("nested", kinds[1])):
+                await asyncio.sleep(0)
+            ctx.spawn(job)
+            if last == "after-a-turn":
+                await asyncio.sleep(0)
+        if last == "settles":
+            for _ in range(3):
+                await asyncio.sleep(0)
+
+    error = None
+    try:
+        asyncio.run(main())
+    except BaseException as exc:  # noqa: BLE001
+        error = repr(exc)
+    R.case(case, nontrivial=True)
+    R.count("programs_ending_right_after_their_outermost_scope", last != "settles")
+    for name, kind in zip(("root", "nested", "spawned"), kinds):
+        n = calls.count(name)
+        w = {"has_plain": False, "has_spawn": True, "node_kind": "ascope", "callback": kind, "place": "program-end", "last": last}
+        R.monitor("once", n <= 1, where={**w, "kind": "completion-twice"}, detail=f"{name}: completion invoked {n} times; calls={calls}", case=case)
+        R.monitor("eventually", n >= 1 and error is None, where={**w, "kind": "completion-never-fired", "node": name},
+                  detail=f"asyncio.run(main()) returned ({error}); every scope was left, yet the {kind} completion of '{name}' was invoked {n} times; calls={calls}", case=case)
+
+
 def run(R: Recorder, tier: str, seed: int, shard: int, nshards: int) -> None:
+    if shard == 1 % nshards:
+        for kinds in itertools.product(("async", "sync", "async-object"), repeat=3):
+            for last in ("scope-exit", "after-a-turn", "settles"):
+                run_program_end(R, {"program_end": True, "kinds": list(kinds), "last": last})
     if shard == 0:
         for order in MANUAL_ORDERS:
             for ka, kb in itertools.product(("async", "sync"), repeat=2):
@@ -496,6 +552,9 @@ def run(R: Recorder, tier: str, seed: int, shard: int, nshards: int) -> None:
 
 
 def replay(R: Recorder, rec: dict[str, Any]) -> None:
+    if rec.get("program_end"):
+        run_program_end(R, rec)
+        return
     if rec.get("manual"):
         run_manual_order(R, rec)
         return
